@@ -76,7 +76,9 @@ func ValidateResponse(ctx context.Context, input *ResponseValidationInput) error
 
 	headers := make([]string, 0, len(response.Headers))
 	for k := range response.Headers {
-		if k != headerCT {
+		// A definition under the name Content-Type is ignored (OpenAPI 3.0.3, Response Object);
+		// header names are case-insensitive.
+		if !strings.EqualFold(k, headerCT) {
 			headers = append(headers, k)
 		}
 	}
